@@ -16,6 +16,12 @@ pub struct Case {
     pub hostga: Option<GDoc>,
     pub rec: Option<Rec>,
     pub req: GReq,
+    /// further requests on the SAME keep-alive connection (each judged on its own)
+    #[serde(default)]
+    pub more: Vec<GReq>,
+    /// rule sets installed after the first request (the connection stays open): (wireserver, imds, hostga)
+    #[serde(default)]
+    pub later_rules: Option<(Option<GDoc>, Option<GDoc>, Option<GDoc>)>,
 }
 
 pub fn dest_sel() -> impl Strategy<Value = DestSel> {
@@ -51,8 +57,10 @@ pub fn strategy() -> impl Strategy<Value = Case> {
         prop::option::weighted(0.6, gen::gdoc()),
         prop::option::weighted(0.85, rec()),
         gen::greq_with(provision_or(gen::gurl())),
+        prop_oneof![3 => Just(vec![]), 2 => prop::collection::vec(gen::greq_with(provision_or(gen::gurl())), 1..4)],
+        prop::option::weighted(0.25, (prop::option::weighted(0.8, gen::gdoc()), prop::option::weighted(0.8, gen::gdoc()), prop::option::weighted(0.6, gen::gdoc()))),
     )
-        .prop_map(|(ws, imds, hostga, rec, req)| Case { ws, imds, hostga, rec, req })
+        .prop_map(|(ws, imds, hostga, rec, req, more, later_rules)| Case { ws, imds, hostga, rec, req, more, later_rules })
 }
 
 /// C03 end-to-end: non-elevated callers to the root-only endpoints, and the self destination
@@ -70,17 +78,20 @@ pub fn strategy_c03() -> impl Strategy<Value = Case> {
         } else {
             c.rec = Some(Rec { uid_sel: 1, helper_sel: 0, is_root: false, dest: DestSel::SelfProxy });
         }
-        while c.req.url.path.contains("..") {
-            c.req.url.path = c.req.url.path.replace("..", ".");
-        }
-        if c.req.url.path.eq_ignore_ascii_case("/provision") {
-            c.req.url.path = "/provisio".into();
+        let mut all: Vec<&mut GReq> = std::iter::once(&mut c.req).chain(c.more.iter_mut()).collect();
+        for r in all.iter_mut() {
+            while r.url.path.contains("..") {
+                r.url.path = r.url.path.replace("..", ".");
+            }
+            if r.url.path.eq_ignore_ascii_case("/provision") {
+                r.url.path = "/provisio".into();
+            }
         }
         c
     })
 }
 
-pub const RULE: &str = "generator: rule set (or none) per endpoint installed through the public set_*_rules x attribution record (85%: uid from the generated passwd, pid of a live helper process, elevation flag = (uid == 0) or independent, original destination in {WireServer, HostGAPlugin, IMDS, the proxy itself, another local address, 168.63.129.16:81, an address nobody listens on}) or no record (direct connection) x request (method, URL incl. '..' / %2e%2e / '/provision', URL and caller mostly bound to the destination's rule set, header set, body as Content-Length or chunked). The raw client binds its source port, the record is placed in the stand-in audit map for that port, then it connects to the real listener. oracle: bytes counted at the mock hosts and the client status against the reference (record present AND no literal '..' in the path AND reference authorizer != Block). non-trivial: record present, destination's rule set present and not disabled, and the reference decision depends on the rule set (flipping the default access or the caller's elevation changes it) - or one of the refusal classes with a record present (traversal, self, non-elevated to a root-only endpoint, enforced denial); distinct by hash of the case.";
+pub const RULE: &str = "generator: rule set (or none) per endpoint installed through the public set_*_rules x attribution record (85%: uid from the generated passwd, pid of a live helper process, elevation flag = (uid == 0) or independent, original destination in {WireServer, HostGAPlugin, IMDS, the proxy itself, another local address, 168.63.129.16:81, an address nobody listens on}) or no record (direct connection) x request (method, URL incl. '..' / %2e%2e / '/provision', URL and caller mostly bound to the destination's rule set, header set, body as Content-Length or chunked). The raw client binds its source port, the record is placed in the stand-in audit map for that port, then it connects to the real listener. oracle: bytes counted at the mock hosts and the client status against the reference (record present AND no literal '..' in the path AND reference authorizer != Block). non-trivial: record present, destination's rule set present and not disabled, and the reference decision depends on the rule set (flipping the default access or the caller's elevation changes it) - or one of the refusal classes with a record present (traversal, self, non-elevated to a root-only endpoint, enforced denial). 40% of the cases carry 1-3 further requests on the same keep-alive connection and 25% of those replace the rule sets after the first request; every request is judged on its own against the rules in force when it is sent. distinct by hash of the case.";
 
 pub fn dest_of(d: DestSel) -> Dest {
     let (ip, port) = d.addr();
@@ -123,28 +134,96 @@ pub fn exchange(rig: &Rig, rec: Option<&Rec>, wire: &[u8], method: &str) -> Resu
 pub fn eval(rig: &Rig, case: &Case, stats: &mut Stats) -> Outcome {
     rig.set_rules(case.ws.as_ref(), case.imds.as_ref(), case.hostga.as_ref());
     rig.set_key(None);
-    // bind URL (and nothing else: the claims come from the record) to the destination's rule set
+    let mut rules: (Option<GDoc>, Option<GDoc>, Option<GDoc>) = (case.ws.clone(), case.imds.clone(), case.hostga.clone());
+    let entry = case.rec.as_ref().map(|r| rig.entry_of(r));
+    let mut conn = match rig.open(entry, 0) {
+        Ok(c) => Some(c),
+        Err(e) => return Outcome::fail("rig:cannot-open-connection", e),
+    };
+    let all: Vec<&GReq> = std::iter::once(&case.req).chain(case.more.iter()).collect();
+    if all.len() > 1 {
+        stats.class("connection:keep-alive-with-several-requests");
+    }
+    for (i, req) in all.iter().enumerate() {
+        if i == 1 {
+            if let Some(l) = &case.later_rules {
+                rules = l.clone();
+                rig.set_rules(rules.0.as_ref(), rules.1.as_ref(), rules.2.as_ref());
+                stats.class("connection:rules-replaced-while-open");
+            }
+        }
+        if conn.is_none() {
+            // the previous exchange may have left the connection unusable (refusal with an unread body): a fresh one, same caller
+            let entry = case.rec.as_ref().map(|r| rig.entry_of(r));
+            conn = match rig.open(entry, 0) {
+                Ok(c) => Some(c),
+                Err(e) => return Outcome::fail("rig:cannot-open-connection", e),
+            };
+        }
+        let (o, reusable) = eval_one(rig, case, req, &rules, conn.as_mut().unwrap(), i, stats);
+        if let Outcome::Fail { .. } = o {
+            if let Some(c) = conn.take() {
+                crate::rawhttp::close_abortive(c.stream);
+            }
+            return o;
+        }
+        if !reusable {
+            if let Some(c) = conn.take() {
+                crate::rawhttp::close_abortive(c.stream);
+            }
+        }
+    }
+    if let Some(c) = conn.take() {
+        crate::rawhttp::close_abortive(c.stream);
+    }
+    Outcome::Pass
+}
+
+/// one request on an open connection; returns the verdict and whether the connection can carry another request
+fn eval_one(rig: &Rig, case: &Case, req: &GReq, rules: &(Option<GDoc>, Option<GDoc>, Option<GDoc>), conn: &mut crate::rig::Conn, index: usize, stats: &mut Stats) -> (Outcome, bool) {
     let dest_rules: Option<&GDoc> = match case.rec.map(|r| dest_of(r.dest)) {
-        Some(Dest::WireServer) => case.ws.as_ref(),
-        Some(Dest::GaPlugin) => case.hostga.as_ref(),
-        Some(Dest::Imds) => case.imds.as_ref(),
+        Some(Dest::WireServer) => rules.0.as_ref(),
+        Some(Dest::GaPlugin) => rules.2.as_ref(),
+        Some(Dest::Imds) => rules.1.as_ref(),
         _ => None,
     };
     let claims = case.rec.as_ref().map(|r| rig.claims_of(r));
     let url = match (dest_rules, &claims) {
-        (Some(d), Some(c)) if case.req.url.path != "/provision" => gen::apply_bind(d, &case.req.url, c, &gen::Bind { priv_sel: case.req.bind.priv_sel, ident_sel: None }).0,
-        _ => case.req.url.clone(),
+        (Some(d), Some(c)) if req.url.path != "/provision" => gen::apply_bind(d, &req.url, c, &gen::Bind { priv_sel: req.bind.priv_sel, ident_sel: None }).0,
+        _ => req.url.clone(),
     };
     let target = url.text();
     if target.parse::<hyper::Uri>().is_err() || target.contains(' ') {
         stats.class("target-not-a-valid-uri");
-        return Outcome::Pass;
+        return (Outcome::Pass, true);
     }
-    let wire = case.req.wire(&target, &[]);
-    let obs = match exchange(rig, case.rec.as_ref(), &wire, &case.req.method) {
-        Ok(o) => o,
-        Err(e) => return Outcome::fail("rig:cannot-open-connection", e),
+    let wire = req.wire(&target, &[]);
+    let before = rig.mock.bytes_by_listener();
+    let _ = rig.mock.take_requests();
+    let send_err = conn.send(&wire).err().map(|e| e.to_string());
+    let resp = conn.read(&req.method, Duration::from_secs(20));
+    let (status_opt, client_error) = match &resp {
+        Ok(r) => (Some(r.status), None),
+        Err(e) => (None, Some(format!("{:?} (send error: {:?})", e, send_err))),
     };
+    let after = rig.mock.bytes_by_listener();
+    let mut delta = std::collections::BTreeMap::new();
+    for (k, v) in &after {
+        let d = v - before.get(k).copied().unwrap_or(0);
+        if d > 0 {
+            delta.insert(k.clone(), d);
+        }
+    }
+    let requests = rig.mock.take_requests();
+    let obs = Observed { status: status_opt, delta, requests, client_error, response: resp.ok() };
+    let reusable = req.body.is_empty() && obs.status.is_some();
+    let o = judge(rig, case, req, &target, dest_rules, &claims, &obs, index, stats);
+    (o, reusable)
+}
+
+#[allow(clippy::too_many_arguments)]
+fn judge(_rig: &Rig, case: &Case, req: &GReq, target: &str, dest_rules: Option<&GDoc>, claims: &Option<crate::gen::GClaims>, obs: &Observed, index: usize, stats: &mut Stats) -> Outcome {
+    let target = target.to_string();
     let total_up: u64 = obs.delta.values().sum();
     let (path, _) = crate::refmodel::rbac::split_target(&target);
     let traversal = path.contains("..");
@@ -209,11 +288,11 @@ pub fn eval(rig: &Rig, case: &Case, stats: &mut Stats) -> Outcome {
             }
         }
         if (refusal && !provision) || depends {
-            stats.nontrivial_hash(h64(&(case, &target)));
+            stats.nontrivial_hash(h64(&(case, &target, index)));
         }
     }
     stats.sample(|| {
-        serde_json::json!({"record": case.rec, "claims": claims, "request": format!("{} {}", case.req.method, target), "rules_for_destination": dest_rules.map(|d| d.to_json()),
+        serde_json::json!({"record": case.rec, "claims": claims, "request": format!("{} {}", req.method, target), "rules_for_destination": dest_rules.map(|d| d.to_json()),
         "status": obs.status, "upstream_bytes": obs.delta, "class": class})
     });
 
@@ -221,7 +300,7 @@ pub fn eval(rig: &Rig, case: &Case, stats: &mut Stats) -> Outcome {
     if total_up > 0 && !may_relay {
         return Outcome::fail(
             format!("mediation:bytes-sent-upstream-for-{}", class),
-            format!("{} bytes reached {:?} although the request must not be relayed ({}); request {} {} record {:?} claims {:?} rules {:?} status {:?}", total_up, obs.delta, class, case.req.method, target, case.rec, claims, dest_rules.map(|d| d.to_json()), obs.status),
+            format!("{} bytes reached {:?} although the request must not be relayed ({}); request {} {} record {:?} claims {:?} rules {:?} status {:?}", total_up, obs.delta, class, req.method, target, case.rec, claims, dest_rules.map(|d| d.to_json()), obs.status),
         );
     }
     if total_up > 0 {
@@ -235,11 +314,11 @@ pub fn eval(rig: &Rig, case: &Case, stats: &mut Stats) -> Outcome {
     }
     let status = match obs.status {
         Some(s) => s,
-        None => return Outcome::fail("mediation:no-response-to-valid-request", format!("{} {} -> {:?}", case.req.method, target, obs.client_error)),
+        None => return Outcome::fail("mediation:no-response-to-valid-request", format!("{} {} -> {:?}", req.method, target, obs.client_error)),
     };
     if !may_relay && !provision {
         if !expect_status.contains(&status) {
-            return Outcome::fail(format!("mediation:wrong-refusal-status-for-{}", class), format!("status {} expected {:?}; request {} {} record {:?}", status, expect_status, case.req.method, target, case.rec));
+            return Outcome::fail(format!("mediation:wrong-refusal-status-for-{}", class), format!("status {} expected {:?}; request {} {} record {:?}", status, expect_status, req.method, target, case.rec));
         }
     } else if must_relay && !provision {
         let r = case.rec.as_ref().unwrap();
@@ -248,8 +327,8 @@ pub fn eval(rig: &Rig, case: &Case, stats: &mut Stats) -> Outcome {
                 if obs.requests.len() != 1 || obs.requests[0].listener != l {
                     return Outcome::fail("mediation:authorized-request-not-relayed", format!("expected exactly one request at {}, got {:?}; status {}", l, obs.requests.iter().map(|q| (&q.listener, &q.method, &q.target)).collect::<Vec<_>>(), status));
                 }
-                if obs.requests[0].method != case.req.method || obs.requests[0].target != target {
-                    return Outcome::fail("mediation:relayed-request-line-differs", format!("sent {} {} host saw {} {}", case.req.method, target, obs.requests[0].method, obs.requests[0].target));
+                if obs.requests[0].method != req.method || obs.requests[0].target != target {
+                    return Outcome::fail("mediation:relayed-request-line-differs", format!("sent {} {} host saw {} {}", req.method, target, obs.requests[0].method, obs.requests[0].target));
                 }
                 if status != 200 {
                     return Outcome::fail("mediation:authorized-request-status", format!("status {} for an authorised relayed request (mock answers 200)", status));
